@@ -368,10 +368,23 @@ pub fn write_be(dst: &mut [u8], v: u64) {
     }
 }
 
-/// The lying values for one length field: 0, 1, true-1, true+1, max (deduplicated, true value excluded).
+/// Also lie by amounts that vanish in a narrower integer (true+256, true+65536) and by the top bit.
+pub static WRAP_LIES: std::sync::atomic::AtomicBool = std::sync::atomic::AtomicBool::new(false);
+
+/// The lying values for one length field: 0, 1, true-1, true+1, max (deduplicated, true value excluded);
+/// with WRAP_LIES also true+256 / true+65536 (fields wide enough) and the top bit flipped.
 pub fn lies(l: &LenField) -> Vec<u64> {
     let max = if l.width >= 8 { u64::MAX } else { (1u64 << (8 * l.width)) - 1 };
     let mut v = vec![0, 1, l.value.wrapping_sub(1) & max, (l.value + 1) & max, max];
+    if WRAP_LIES.load(std::sync::atomic::Ordering::Relaxed) && l.width < 8 {
+        if l.width >= 2 {
+            v.push((l.value + 256) & max);
+        }
+        if l.width >= 3 {
+            v.push((l.value + 65536) & max);
+        }
+        v.push(l.value ^ (1u64 << (8 * l.width - 1)));
+    }
     v.sort();
     v.dedup();
     v.retain(|&x| x != l.value);
